@@ -144,8 +144,8 @@ let () =
       let show m = String.concat ";" (List.sort compare (List.map (fun (k, v) -> hex_of_bytes k ^ "=" ^ hex_of_bytes v) m)) in
       if k = "qrt" then Printf.printf "Q %s | OK %s\n" (hex_of_bytes q) (show (parse_query q))
       else (match form_urlencoded_parse q with Some m -> Printf.printf "Q %s | OK %s\n" (hex_of_bytes q) (show m) | None -> Printf.printf "Q %s | ERR\n" (hex_of_bytes q))
-    | ["pct"] -> print_endline "E  | D "
-    | ["pct"; t] -> let e = encode_uri (bytes_of_hex t) in Printf.printf "E %s | D %s\n" (hex_of_bytes e) (hex_of_bytes (decode_uri e))
+    | ["pct"] -> print_endline "E  | D  dom=1"
+    | ["pct"; t] -> let e = encode_uri (bytes_of_hex t) in Printf.printf "E %s | D %s dom=%d\n" (hex_of_bytes e) (hex_of_bytes (decode_uri e)) (if in_F1 (bytes_of_hex t) then 0 else 1)
     | ["pq"] -> print_endline "OK "
     | ["pq"; q] ->
       let m = parse_query (bytes_of_hex q) in
